@@ -576,6 +576,20 @@ class Interp:
                 return f
         return None
 
+    def find_methods(self, rec_qn, name, nparams=None, pred=None):
+        """All instantiated overloads (with a body) of a member function."""
+        rec = self.find_record(rec_qn)
+        out = []
+        for d in (self.methods.get(rec["id"], ()) if rec is not None else ()):
+            if d["name"] != name or (nparams is not None and len(d["params"]) != nparams):
+                continue
+            if pred is not None and not pred(d):
+                continue
+            f = self.func(d["id"])
+            if f is not None:
+                out.append(f)
+        return out
+
     def T(self, n):
         t = n.get("t")
         return self.u.types[t] if t is not None else ""
@@ -759,10 +773,11 @@ class Interp:
                     raise OutOfFragment("declaration %s" % d["k"])
         elif k == "IfStmt":
             init, condvar, cond, then, els = ch
-            if init is not None or condvar is not None:
+            if init is not None:
                 self.exec(init)
-                if condvar is not None:
-                    raise OutOfFragment("condition variable")
+            if condvar is not None:
+                # `if (const auto v = f())`: the declaration is executed, the condition is the converted variable
+                self.exec(condvar)
             if s.get("constexpr") and cond.get("cv") is not None:
                 c = int(cond["cv"]) != 0
             else:
@@ -798,7 +813,7 @@ class Interp:
         elif k == "WhileStmt":
             condvar, cond, body = ch
             n = 0
-            while self.truth(self.ev(cond)):
+            while (self.exec(condvar) if condvar is not None else None) or self.truth(self.ev(cond)):
                 n += 1
                 if n > 5000:
                     raise OutOfFragment("loop bound")
